@@ -18,7 +18,7 @@ CHECKS = {
                 "(9 declaration kinds x 7 whitespace noises x 4 reference modes x module variants); the specification computes the names and import set that must come out. Each case "
                 "becomes a package of a real module, generated through gengo's pipeline by a scripted generator; GenFileTrace.tla judges what was read back from disk: parses, header names "
                 "the generator, package clause, names in order, same specs/tokens/comments as the rendered text, gofmt and gofumpt fixed points (formatters as logged oracles), import "
-                "block and go build.",
+                "block and go build. The reference text for 'altered only by formatting' is assembled by the harness from the script (never by gengo's writer); further dimensions added after seeded changes: a module inside a go.work workspace whose other module is generated first, declarations assembled from several Render calls, a comment go/printer needs two passes for, every judged generation rewriting a longer earlier file.",
         "note": "The formatters and the compiler are oracles named by the statement itself and are not modelled; the spec supplies the input space and the abstract file. Bounded fragment sequences + random longer ones.",
         "technique": _TLC,
     },
@@ -57,7 +57,7 @@ CHECKS = {
         "text": "Dispatch.tla defines effective tags (declaration over package over global, per key), the enabling rule over segment-structured keys (decisive gengo:<name>, else any "
                 "gengo:<name>:<sub>) and the expected callback sequence; TLC checks precedence and no-prefix-confusion over the whole lattice; every (global, package) placement x generator "
                 "list is materialised with all 24 declaration-level placement x kind combinations plus local types, type parameters and a tagged foreign package, run in fresh processes, and "
-                "DispatchTrace.tla compares the callback log (kind, generator, type, go/types object kind) and the deferred-callback discipline (once each, after the last call, before the write).",
+                "DispatchTrace.tla compares the callback log (kind, generator, type, go/types object kind) and the deferred-callback discipline (once each, after the last call, before the write). A second package without package tags is generated after the first in the same Execute (nothing may leak), one generator renders only from deferred callbacks, one callback registers two follow-ups, and multi-line declarations carry trailing tag comments that must not reach the next type.",
         "note": "Exhaustive over the 6x6x6 placement lattice for one tag family and 4 generator lists; one value per key per level; tags in one package comment only.",
         "technique": _TLC,
     },
@@ -75,7 +75,7 @@ CHECKS = {
         "text": "Template.tla holds a declarative reference for T/Sprintf/Comment/GoDirective/Snippets written from the statement and a scanner-shaped machine "
                 "for T that TLC proves equal to it for all formats in bound (Loop A); every reachable state of the per-API generation machines (all formats over the "
                 "alphabet up to the bound, argument kinds chosen per verb, fixed binding environment with nil/empty/placeholder-looking/nested arguments) is rendered "
-                "through gengo.NewSnippetWriter and TemplateTrace.tla compares output / panic with the reference (Loop C); seeded random long Unicode formats beyond.",
+                "through gengo.NewSnippetWriter and TemplateTrace.tla compares output / panic with the reference (Loop C); seeded random long Unicode formats beyond. Every snippet value is rendered a second time into another package's file and compared with a freshly built one; Args maps are reused by the caller after T returned; every second Snippets case wraps a one-shot sequence.",
         "note": "Small-scope exhaustive (length bound, fixed alphabet and environment). Inputs with NUL/BOM/invalid UTF-8 excluded (text/scanner alters them); trailing lone '%' accepted either way.",
         "technique": _TLC,
     },
@@ -102,7 +102,7 @@ CHECKS = {
         "text": "Comments.tla defines tag classification (trim, marker, key/value split, ordered multimap) and the geometric attribution of doc and trailing "
                 "comments over layouts of line kinds in five declaration contexts; TLC proves that a two-index scheme (leading groups by end line, trailing groups "
                 "apart) equals the geometric definition for all layouts in bound and shows the counterexample when trailing groups leak into the leading index; every "
-                "line / line list / layout in bound is replayed (real Go source loaded by types.Load) and CommentsTrace.tla judges tags, other lines, Doc, Comment per declaration.",
+                "line / line list / layout in bound is replayed (real Go source loaded by types.Load) and CommentsTrace.tla judges tags, other lines, Doc, Comment per declaration. Layouts include declarations spanning several lines and embedded fields with trailing comments; every Doc/Comment is asked again after the caller overwrote what the first call returned; two thirds of the layouts lie below a //line directive.",
         "note": "Canonical comment texts; comments trailing '(' or '{' lines and tab-indented tag lines are not generated (statement silent). Exhaustive up to the line-count / length bound.",
         "technique": _TLC,
     },
@@ -122,7 +122,7 @@ CHECKS = {
                 "model (self / mutual recursion, cross-index forwarding) and shows the unbounded descent when only the first index gets its mark. Every assignment of 13 source shapes to "
                 "three functions is a generated package (2197), and every function and method of the dependency closure of gengo's own module (about 11,000 units) is the real corpus; "
                 "ResultsOf runs in a supervised child (stack cap, time budget, restart behind a killing unit) and FuncResultsTrace.tla judges termination, declared n, one non-empty list per "
-                "result, assignability (go/types), repeatability and - for literal-only shapes - the exact alternatives in source order.",
+                "result, assignability (go/types), repeatability and - for literal-only shapes - the exact alternatives in source order. Every unit is asked once more after all others (the answer may not depend on what was asked in between); shapes include a call chain over two package boundaries, closures with fewer results than the enclosing function, spread variadic calls, function-local constants and legacy octal literals; constants are checked for a kind the result type can hold.",
         "note": "types.AssignableTo is the oracle for 'possible result'; ResultsOf is called on the declaring package; exact alternatives only for the literal-only shapes.",
         "technique": _TLC,
     },
